@@ -16,11 +16,23 @@ type VerifSocket interface {
 	Send(iface string, dstMAC net.HardwareAddr, etherType uint16, frame []byte) error
 }
 
+// VerifRecvSocket is a VerifSocket that can also deliver received frames to
+// the server's own receive loop.
+type VerifRecvSocket interface {
+	VerifSocket
+	Recv(buf []byte) (int, error)
+}
+
 type verifSocketAdapter struct{ s VerifSocket }
 
 func (a verifSocketAdapter) open(iface string, etherType uint16) error { return nil }
-func (a verifSocketAdapter) close() error                             { return nil }
-func (a verifSocketAdapter) recv(buf []byte) (int, error)             { select {} }
+func (a verifSocketAdapter) close() error                              { return nil }
+func (a verifSocketAdapter) recv(buf []byte) (int, error) {
+	if r, ok := a.s.(VerifRecvSocket); ok {
+		return r.Recv(buf)
+	}
+	select {}
+}
 func (a verifSocketAdapter) send(iface string, dstMAC net.HardwareAddr, etherType uint16, data []byte) error {
 	return a.s.Send(iface, dstMAC, etherType, data)
 }
@@ -37,8 +49,14 @@ func VerifNewServerWithSocket(cfg ServerConfig, logger *zap.Logger, iface *net.I
 
 // VerifDiscovery / VerifSession feed one received frame payload (after the
 // Ethernet header) to the handlers the receive loop calls.
-func (s *Server) VerifDiscovery(src net.HardwareAddr, payload []byte) { s.handleDiscovery(src, payload) }
-func (s *Server) VerifSession(src net.HardwareAddr, payload []byte)   { s.handleSession(src, payload) }
+func (s *Server) VerifDiscovery(src net.HardwareAddr, payload []byte) {
+	s.handleDiscovery(src, payload)
+}
+func (s *Server) VerifSession(src net.HardwareAddr, payload []byte) { s.handleSession(src, payload) }
+
+// VerifRunReceiveLoop runs the server's receive loop over the installed socket
+// until ctx is done.
+func (s *Server) VerifRunReceiveLoop(ctx context.Context) { s.receiveLoop(ctx) }
 
 // VerifRunCleanup runs the periodic session cleanup loop until ctx is done.
 func (s *Server) VerifRunCleanup(ctx context.Context) { s.cleanupLoop(ctx) }
